@@ -7,6 +7,7 @@ import (
 	"fmt"
 	"strconv"
 	"strings"
+	"time"
 )
 
 // Attr is one attribute of an attribute list, with its lexical class.
@@ -33,6 +34,9 @@ var attrListTags = map[string]bool{
 	"EXT-X-SESSION-KEY": true, "EXT-X-RENDITION-REPORT": true, "EXT-X-DATERANGE": true, "EXT-X-DEFINE": true,
 	"EXT-X-CONTENT-STEERING": true,
 }
+
+// Classify returns the lexical class of an attribute value.
+func Classify(v string) string { return classify(v) }
 
 func classify(v string) string {
 	if v == "" {
@@ -404,4 +408,29 @@ func ReadMedia(text string) (*Media, error) {
 	}
 	m.Parts = pending
 	return m, nil
+}
+
+// SimpleClass returns the lexical class of the value of a tag that carries a single value.
+func SimpleClass(tag, v string) string {
+	switch tag {
+	case "EXT-X-PROGRAM-DATE-TIME":
+		if _, err := time.Parse("2006-01-02T15:04:05.999Z07:00", v); err == nil {
+			return "date"
+		}
+		return "bad"
+	case "EXTINF":
+		i := strings.IndexByte(v, ',')
+		if i < 0 {
+			return "bad"
+		}
+		return classify(v[:i])
+	case "EXT-X-BYTERANGE":
+		if i := strings.IndexByte(v, '@'); i >= 0 {
+			if classify(v[:i]) == "int" && classify(v[i+1:]) == "int" {
+				return "range"
+			}
+			return "bad"
+		}
+	}
+	return classify(v)
 }
